@@ -1591,6 +1591,18 @@ class Exec:
                 byref.append(lvt)
             else:
                 args.append(self.ev(a, out))
+        if name is None and isinstance(e.get("fn"), dict):
+            # a call through a pointer whose value is known here (a function handed to an inlined helper as an argument):
+            # the call of that function
+            fv = self.ev(e["fn"], out)
+            while isinstance(fv, tuple) and fv and fv[0] in ("cast", "addr") and len(fv) > 1 and isinstance(fv[-1], tuple):
+                fv = fv[-1]
+            if isinstance(fv, tuple) and len(fv) == 2 and fv[0] == "glob":
+                cands = [u_ for u_ in self.v.by_name.get(fv[1], []) if u_ in self.v.decls]
+                if len(cands) == 1:
+                    tgt = self.v.decls[cands[0]]
+                    e = dict(e, callee=tgt.d["q"], cusr=cands[0])
+                    name = tgt.d["q"]
         if name is None:
             out.append({"e": "unknown", "what": "indirect call", "l": e["l"]})
             return ("unk", "indirect@%s" % e["l"])
@@ -1708,6 +1720,52 @@ class Exec:
         self.forget_stores_in([st])
         return True
 
+    def _mem_algorithm(self, e, name, args, out):
+        """memcpy(dst, src, nbytes) / memset(dst, 0, nbytes) on typed arrays of scalars are the element loops they stand for, when the
+        element type is known (the argument's type before its conversion to void*) and the byte count is a multiple of its size:
+        for u in [0, nbytes / size): dst[u] = src[u]  resp.  dst[u] = 0.   (memmove keeps its own meaning: overlapping ranges)"""
+        an = [a for a in e.get("args", []) if isinstance(a, dict)]
+        if len(args) != 3 or len(an) != 3 or any(a is None for a in args):
+            return False
+
+        def ptr_type(n_):
+            while isinstance(n_, dict) and n_.get("k") in ("cast", "paren") and isinstance(n_.get("a"), dict) and \
+                    strip_cv(n_.get("t", "")) in ("void *", "const void *"):
+                n_ = n_["a"]
+            return n_.get("t", "") if isinstance(n_, dict) else ""
+        td = ptr_type(an[0])
+        es = pointee_size(td, None)
+        if not es or strip_cv(strip_cv(td)[:-1]) not in SIZEOF:
+            return False
+        is_set = name.endswith("memset")
+        if is_set:
+            if args[1] != ZERO:
+                return False
+        else:
+            ts = ptr_type(an[1])
+            if pointee_size(ts, None) != es or strip_cv(strip_cv(ts)[:-1]) not in SIZEOF:
+                return False
+        nb = args[2]
+        while nb[0] == "cast":
+            nb = nb[2]
+        items = sym.poly_items(nb)
+        if not items or not all(c % es == 0 for _, c in items):
+            return False
+        cv = sym.const_value(nb)
+        count = I(cv // es) if cv is not None else sym._from_poly({m_: c_ // es for m_, c_ in items})
+        strip = lambda t: strip(t[2]) if t[0] == "cast" else t
+        dst = strip(args[0])
+        Exec.serial += 1
+        u = sym.sym("u%d@%d" % (Exec.serial, e["l"]))
+        if is_set:
+            st = {"e": "store", "lv": sym.idx(dst, u), "op": "=", "val": ZERO, "l": e["l"], "t": "", "ct": ""}
+        else:
+            st = {"e": "store", "lv": sym.idx(dst, u), "op": "=", "val": sym.idx(strip(args[1]), u), "l": e["l"], "t": "", "ct": ""}
+        out.append({"e": "loop", "var": u, "lo": ZERO, "cmp": "<", "hi": self._clamp(count), "step": I(1), "body": [st], "l": e["l"],
+                    "name": "u", "algorithm": name})
+        self.forget_stores_in([st])
+        return True
+
     def _vector_method(self, name, args, this):
         """size / begin / end / data / operator[] / empty of a local std::vector modelled as an array"""
         if this is None or not name.startswith("std::vector<"):
@@ -1752,6 +1810,8 @@ class Exec:
         if name in ("std::transform", "std::generate_n", "std::generate", "std::for_each") and self._std_functor_algorithm(e, name, args, out):
             Exec.serial += 1
             return ("unk", "%s-result:%d" % (name, Exec.serial))
+        if name in ("memcpy", "std::memcpy", "memset", "std::memset") and self._mem_algorithm(e, name, args, out):
+            return args[0]
         if name in ("std::fill", "std::fill_n", "std::copy", "std::copy_n", "std::reverse_copy") and self._std_algorithm(e, name, args, out):
             if name == "std::fill":
                 return None
